@@ -281,6 +281,48 @@ def gen00(rng):
     return secs
 
 
+# ------------------------------------------------------------------------------------------------ rpms content
+R_NAMES = ["bash", "glibc", "python3-foo", "gtk2", "a-b-c", "x", "lib-2"]
+R_VERSIONS = ["4.3.30", "2.17", "1", "0.9_rc1", "20150101"]
+R_RELEASES = ["2.fc21", "1.el7", "3", "0.1.rc9"]
+R_SIGKEYS = [None, "95a43f54", "fd431d51", "f5282ee4"]
+
+
+def gen_rpms(rng):
+    """current-format rpms content that a 0.3 manifest can carry: a source RPM is filed (category `source`, same path and
+    signing key) next to its binaries in every arch of the variant where it has binaries, or nowhere in the variant"""
+    checklib.use_repo()
+    import productmd.common
+    arches = [a for a in productmd.common.RPM_ARCHES if a not in ("src", "nosrc")]
+    rpms, upper = {}, []
+    for variant in rng.sample(["Server", "Client", "Server-optional", "Workstation", "x"], rng.randint(1, 3)):
+        varches = rng.sample(arches, rng.randint(1, 3))
+        if rng.random() < 0.5:
+            varches[0] = rng.choice(["x86_64", "i386", "ppc64le", "aarch64", "s390x"])
+        for _ in range(rng.randint(1, 3)):
+            name, epoch = rng.choice(R_NAMES), rng.choice([0, 0, 1, 12])
+            ver, rel = rng.choice(R_VERSIONS), rng.choice(R_RELEASES)
+            srcarch = rng.choice(["src", "src", "nosrc"])
+            srpm = "%s-%d:%s-%s.%s" % (name, epoch, ver, rel, srcarch)
+            sdata = {"path": "%s/source/SRPMS/%s/%s-%s-%s.%s.rpm" % (variant, name[0], name, ver, rel, srcarch),
+                     "sigkey": rng.choice(R_SIGKEYS), "category": "source"}
+            with_src = rng.random() < 0.75
+            for arch in rng.sample(varches, rng.randint(1, len(varches))):
+                cell = rpms.setdefault(variant, {}).setdefault(arch, {}).setdefault(srpm, {})
+                for sub in rng.sample(["", "-libs", "-devel", "-doc", "-debuginfo"], rng.randint(1, 3)):
+                    parch = rng.choice([arch, arch, "noarch"])
+                    key = "%s%s-%d:%s-%s.%s" % (name, sub, epoch, ver, rel, parch)
+                    cell[key] = {"path": "%s/%s/os/Packages/%s/%s%s-%s-%s.%s.rpm" % (variant, arch, name[0], name, sub, ver, rel, parch),
+                                 "sigkey": rng.choice(R_SIGKEYS), "category": "debug" if sub == "-debuginfo" else "binary"}
+                if with_src:
+                    cell[srpm] = dict(sdata)
+    comp = IF.gen_compose(rng)
+    c = dict((k, comp[k]) for k in ("id", "type", "date", "respin"))
+    if comp.get("label"):
+        c["label"], c["final"] = comp["label"], comp["final"]
+    return {"header": {"type": "productmd.rpms", "version": "1.2"}, "payload": {"compose": c, "rpms": rpms}}
+
+
 # ------------------------------------------------------------------------------------------------ the property
 class C05(Prop):
     id = "C05"
@@ -316,7 +358,7 @@ class C05(Prop):
         for fmt, name in fixture_list():
             yield {"op": "fixture", "args": {"fmt": fmt, "name": name}}
         g = CF.Gen(rng, tier)
-        cnt = {"ci": 0, "img": 0, "ti": 0}
+        cnt = {"ci": 0, "img": 0, "ti": 0, "rpms": 0}
 
         def nxt(which, table):
             cnt[which] += 1
@@ -332,10 +374,13 @@ class C05(Prop):
                 if L.vt(ver) < (0, 3) and spec["compose"]["respin"] < 0:
                     spec["compose"]["respin"] = -spec["compose"]["respin"]      # the id carries no sign: not derivable, outside the quantifier
                 yield {"op": "ci", "args": {"spec": spec, "version": ver, "keep_internal": rng.random() < 0.4}}
-            elif k < 12:
+            elif k < 11:
                 ver = nxt("img", L.IMG_VERSIONS)
                 yield {"op": "img", "args": {"spec": self.img_spec(rng, tier, ver), "version": ver}}
-            elif k < 17:
+            elif k < 14:
+                ver = nxt("rpms", L.RPMS_VERSIONS)
+                yield {"op": "rpms", "args": {"doc": gen_rpms(rng), "version": ver, "upper": rng.random() < 0.3, "suffix": rng.random() < 0.3}}
+            elif k < 18:
                 ver = nxt("ti", L.TI_VERSIONS)
                 spec, _ = TF.gen(rng, tier)
                 self.ti_restrict(rng, spec, ver)
@@ -421,7 +466,7 @@ class C05(Prop):
             doc = L.img_down(IF.doc_of_spec(a["spec"], "1.2"), a["version"])
             return "images", json.dumps(doc, sort_keys=True), doc
         if op == "rpms":
-            doc = L.rpms_down(a["doc"], a["version"])
+            doc = L.rpms_down(a["doc"], a["version"], upper=a.get("upper", False), suffix=a.get("suffix", False))
             return "rpms", json.dumps(doc, sort_keys=True), doc
         if op == "ti":
             secs = L.ti_sections(a["spec"], a["version"], a.get("child_key", "addons"))
@@ -468,6 +513,8 @@ class C05(Prop):
             return IF.enc(IF.snap_of_model_state(snap))
         if fmt == "treeinfo":
             return TF.canon_spec(snap, with_parent=False)
+        if fmt == "rpms":
+            return {"version": snap.get("version"), "compose": snap.get("compose"), "rpms": snap.get("payload")}
         return snap
 
     def canon_real(self, fmt, snap):
@@ -523,6 +570,11 @@ class C05(Prop):
             if not comp.get("label"):
                 comp["label"], comp["final"] = None, False
             return IF.enc({"version": cur, "compose": comp, "images": cells}), True
+        if op == "rpms":
+            comp = dict(a["doc"]["payload"]["compose"])
+            comp.setdefault("label", None)
+            comp.setdefault("final", False)
+            return {"version": cur, "compose": comp, "rpms": a["doc"]["payload"]["rpms"]}, True
         if op == "ti":
             spec = a["spec"]
             if not L.ti_src_representable(spec, a["version"]):
@@ -651,6 +703,19 @@ class C05(Prop):
             spec = a["spec"]
             for i in range(len(spec["adds"])):
                 s = copy.deepcopy(spec); del s["adds"][i]; out.append(with_("spec", s))
+        elif op == "rpms":
+            doc = a["doc"]
+            rp = doc["payload"]["rpms"]
+            for v in rp:
+                d = copy.deepcopy(doc); del d["payload"]["rpms"][v]; out.append(with_("doc", d))
+                for ar in rp[v]:
+                    d = copy.deepcopy(doc); del d["payload"]["rpms"][v][ar]; out.append(with_("doc", d))
+                    for sr in rp[v][ar]:
+                        if any(sr in rp[v][x] for x in rp[v]):
+                            d = copy.deepcopy(doc)
+                            for x in d["payload"]["rpms"][v]:
+                                d["payload"]["rpms"][v][x].pop(sr, None)
+                            out.append(with_("doc", d))
         elif op == "ti":
             spec = a["spec"]
             for i in range(len(spec["variants"])):
